@@ -255,6 +255,26 @@ def exact_cases(ctx, n_cases):
             expr = (f"match from_amplitudes gi_ops {d}%nat {n}%nat {tl} with Some C => amps C {_strs(bs)} | None => [] end")
             case.update(n=n, nterms=len(terms))
             add_item(case, expr, want, nontrivial=len(terms) > 0)
+            # the same accumulation through the real constructor MPS._from_state_amplitudes, with the truncation of
+            # __add__ and the final normalisation rebound to no-ops (they are C10's subject), compared factor by factor
+            uniq = {}
+            for ks, a in terms:
+                uniq[tuple(ks)] = a  # a dictionary: the last value of a repeated key wins, its position is the first
+            uterms = [(list(ks), a) for ks, a in uniq.items()]
+            eig = rng.choice([("r", "g"), ("g", "r"), ("0", "1")]) if d == 2 else rng.choice([("g", "r", "x"), ("x", "g", "r")])
+            letter = {0: "g", 1: "r", 2: "x"} if "g" in eig else {0: "0", 1: "1"}
+            amps = {"".join(letter[x] for x in ks): a for ks, a in uterms}
+            keep = (MPS.truncate, MPS.norm)
+            try:
+                MPS.truncate = lambda self: None
+                MPS.norm = lambda self: torch.tensor(1.0, dtype=torch.float64)
+                real, _ = MPS._from_state_amplitudes(eigenstates=eig, n_qudits=n, amplitudes=amps)
+            finally:
+                MPS.truncate, MPS.norm = keep
+            utl = "[" + ";".join(f"({natlist(ks)},{gi(a)})" for ks, a in uterms) + "]"
+            case2 = dict(case, kind="from_amps_real", eigenstates=list(eig), nterms=len(uterms))
+            add_item(case2, f"ochain_eqb (from_amplitudes gi_ops {d}%nat {n}%nat {utl}) {raws(real.factors)}", ("Some", True),
+                     nontrivial=len(uterms) > 0)
         else:  # malformed: length / shape mismatches must raise exactly where the model returns None
             A = rand_gi_chain(rng, n, d, chimax)
             how = rng.choice(["length", "phys", "ok"])
@@ -1040,7 +1060,7 @@ def run(ctx):
     import torch
 
     torch.set_num_threads(1)
-    model_rc, model_out = common.coq_make(["Model/MPSAlg.vo", "Model/Zip.vo", "Proofs/ExpectProofs.vo"])
+    model_rc, model_out = common.coq_make(["Model/MPSAlg.vo", "Model/Zip.vo", "Proofs/ExpectProofs.vo", "Proofs/FromAmpsProofs.vo"])
     ctx.obligation("build:Model/MPSAlg.vo Model/Zip.vo", model_rc == 0, model_out, kind="build")
     common.standard_proof_stage(ctx, "C11", ["Properties/C11.vo"])
     if model_rc == 0:
@@ -1062,8 +1082,9 @@ def run(ctx):
     ctx.assumptions += [
         "theorems are algebraic (any commutative ring with involution); rounding, QR and truncation are outside them and are "
         "validated against dense linear algebra: |error| <= sqrt(N-1)*precision (+1e-9 relative) after truncating operations",
-        "from_amplitudes (accumulation without truncation/normalisation) is checked on the model only; the real "
-        "_from_state_amplitudes is validated by the dense falsifier",
+        "from_amplitudes (accumulation without truncation/normalisation) is compared factor by factor with the real "
+        "MPS._from_state_amplitudes run with MPS.truncate / MPS.norm rebound to no-ops (truncation is C10's subject); the "
+        "unmodified constructor is validated by the dense falsifier",
         "precision stream: generic complex128 data against a numpy complex128 reference at 1e-12 (ring-only operations) / "
         "1e-10 (operations running QR/eigh, with precision 1e-14 or data whose Schmidt values are all > 1e-3 where the "
         "truncation threshold is fixed at 1e-5) relative to the data scale, plus a dtype oracle (complex128 factors)",
@@ -1104,10 +1125,12 @@ META = {
              "unimodular Gaussian-integer G per site) and truncate_impl rebound to a no-op, including which length / bond mismatches raise. "
              "MPO.expect is proved to be the dense expectation value sum_ij conj(amp i) O(i,j) amp j for every chain, no canonical form "
              "assumed (C11_expect_spec: bath adjointness of C02 + the right environment as a double sum over index strings); the left-bath "
-             "model is compared exactly with the real MPO.expect on Gaussian-integer chains. "
+             "model is compared exactly with the real MPO.expect on Gaussian-integer chains. The accumulation loop of "
+             "MPS._from_state_amplitudes represents the dictionary (C11_from_amplitudes_spec: amplitude at b = sum of the entries whose "
+             "string is b, every n >= 2, every d) and is compared factor by factor with the real constructor (truncation/normalisation rebound). "
              "Validated only (dense linear algebra, stated tolerances): truncation after + / apply_to / @, norm, overlap, "
              "expect, expect_batch, get_correlation_matrix, apply, entanglement_entropy, from_state_amplitudes, "
-             "from_operator_repr, and operand invariance of every non-in-place operation. Not proved: from_amplitudes_spec, from_operator_repr_spec; that torch's QR factorises (oracle premise)."),
+             "from_operator_repr, and operand invariance of every non-in-place operation. Not proved: from_operator_repr_spec; that torch's QR factorises (oracle premise)."),
     "note": ("Trusted: Coq kernel+VM, the hand model (tied by the exact correspondence on every run), torch dense references. "
              "Theorems are exact-arithmetic statements; floating-point effects are covered only by the tolerance-based falsifier."),
 }
